@@ -1,4 +1,5 @@
 """Reusable rule templates over analysis.mir (RF-GUARD, RF-BIND, RF-ORDER, …)."""
+import re
 from analysis.mir import (walk, leaves, access_path, calls_in, call_is, term_is, show, short, AnchorError,
                           future_calls, PLUMBING, TRANSPARENT_CALLS)
 
@@ -320,6 +321,80 @@ def inlined_guards(body, pred, depth=1):
     return out
 
 
+def inlined_checked_calls(body, callee):
+    """pseudo checked-calls located at the `?` of a checked call to a workspace helper H: for every checked call to
+    `callee` inside H that lies on all of H's non-failing paths, with H's parameters replaced by the call's arguments"""
+    prog = body.prog
+    out = []
+    for g in body.guards():
+        cond = g['cond']
+        if cond[0] != 'discr' or not g['fail']:
+            continue
+        bad = set()
+        for fc in failconds(body, g):
+            if fc[0] == 'isvariant':
+                bad |= set(fc[2])
+        if not (bad & {'Break', 'Err'}):
+            continue
+        for c in strip_result(cond[1]):
+            tgt = c[2] or c[1]
+            h = prog.bodies.get(tgt)
+            if h is None or h.kind != 'fn' or h.path == body.path:
+                continue
+            if prog.bodies.get(tgt + '::{closure#0}') is not None and h.builds_only(tgt + '::{closure#0}'):
+                continue   # async helper: not inlined
+            pn = h.param_names()
+            m = {name: c[3][i - 1] for i, name in pn.items() if i - 1 < len(c[3])}
+            for cc in checked_calls(h, callee):
+                ks = h.exits((0, 0), avoid_blocks=[cc['block']])
+                if ks - {'Err', 'Diverge'}:
+                    continue
+                out.append({'call': subst(cc['call'], m), 'block': g['block'], 'how': 'via ' + h.path, 'line': g['line']})
+    return out
+
+
+def guard_leaves(body, depth=1):
+    """access paths that reach a rejecting guard of `body` (RF-COVER): leaves of every failing guard's condition,
+    and — when the guard is the `?` of a call to a sync workspace helper — the helper's own guard leaves with its
+    parameters replaced by the call's arguments (so passing the whole proof to `check_x(&proof)?` covers exactly
+    the fields check_x looks at, not all of them)."""
+    prog = body.prog
+    lv = set()
+    for g in body.guards():
+        if not g['fail']:
+            continue
+        cond = g['cond']
+        helpers = []
+        if cond[0] == 'discr' and depth > 0:
+            for c in strip_result(cond[1]):
+                tgt = c[2] or c[1]
+                h = prog.bodies.get(tgt)
+                if h is None or h.kind != 'fn' or h.path == body.path:
+                    continue
+                if prog.bodies.get(tgt + '::{closure#0}') is not None and h.builds_only(tgt + '::{closure#0}'):
+                    continue
+                helpers.append((h, c))
+        if not helpers:
+            lv |= leaves(cond)
+            continue
+        for h, c in helpers:
+            pn = h.param_names()
+            m = {name: c[3][i - 1] for i, name in pn.items() if i - 1 < len(c[3])}
+            inner = guard_leaves(h, depth - 1)
+            params = set(pn.values())
+            for l in inner:
+                root = re.split(r'[.\[]', l, 1)[0]
+                if root in params and root in m:
+                    a = access_path(m[root])
+                    if a:
+                        lv.add(a + l[len(root):])
+                    else:
+                        lv |= leaves(m[root])
+                else:
+                    lv.add(l)
+    return lv
+
+
 def loop_guard_bypass(body, ms, extra_barriers=(), bypass_edges=()):
     """for guards inside `for x in iter` loops: returns a reason string if an
     iteration can complete (or the function can succeed) without the guard."""
@@ -413,6 +488,9 @@ def require_call(ctx, body, oid, rule, callee, argcheck, desc, start=None, allow
     fn = body.path
     cs = checked_calls(body, callee)
     allc = [c for ev in body.events() for c in ev['calls'] if isinstance(c, tuple) and c[0] == 'call' and call_is(c, callee)]
+    if not cs and not allc and not per_iteration:
+        # the checked call may have been moved into a (sync) workspace helper whose Result is propagated here
+        cs = inlined_checked_calls(body, callee)
     if not cs:
         if allc:
             ctx.ob(oid, rule, False, fn, '%s:%s' % (body.file, body.line),
